@@ -347,4 +347,22 @@ def repairReadsD (dry : Bool) (store : List (Nat × Nat)) (files : List IndexFil
   let st := files.foldl (repairFileD dry readAll) { remaining := store, toRead := [], out := [] }
   st.toRead ++ st.remaining.map (fun e => (e.1, none, e.2))
 
+/-! ### `index_checked_from_collector` (`Repository::to_indexed_checked`): the index healed in memory
+
+Per index file `collector.extend(checker.check_pack(index, false).0.packs)` — the kept UNMARKED listings (the `changed` flag and the
+marked listings are ignored); then every queued / never listed pack is read with `PackHeader::from_file` — here the first failing
+read fails the whole command (`?`), `repair_index` would leave the pack out — and added. -/
+
+def checkedFile (st : RepairAcc × List IndexPack) (f : IndexFile) : RepairAcc × List IndexPack :=
+  let r := f.allPacks.foldl (checkOne false)
+    { remaining := st.1.remaining, toRead := st.1.toRead, newIndex := { packs := [], packsToDelete := [] }, changed := false }
+  ({ remaining := r.remaining, toRead := r.toRead, out := [] }, st.2 ++ r.newIndex.packs)
+
+def checkedPacks (readHeader : Nat → Option Nat → Nat → Option (List IndexBlob)) (store : List (Nat × Nat))
+    (files : List IndexFile) : Option (List IndexPack) :=
+  let st := files.foldl checkedFile ({ remaining := store, toRead := [], out := [] }, [])
+  let reads := st.1.toRead ++ st.1.remaining.map (fun e => (e.1, none, e.2))
+  (reads.mapM fun r => (readHeader r.1 r.2.1 r.2.2).map fun bl => ({ id := r.1, blobs := bl, size := none } : IndexPack)).map
+    (st.2 ++ ·)
+
 end Rustic.Index
